@@ -2,6 +2,7 @@ import Mp.ProofsFn
 import Mp.ProofsArr
 import Mp.AnyOfProofs
 import Mp.ProofsSel
+import Mp.ProofsSel2
 /-! C17 — property theorems (proved in the imported modules; statements are checked there, axioms audited here). -/
 #print axioms Mp.count_spec
 #print axioms Mp.asArray_spec
@@ -23,3 +24,6 @@ import Mp.ProofsSel
 #print axioms Mp.select_spec
 #print axioms Mp.select_first_failure
 #print axioms Mp.select_scalar_length
+#print axioms Mp.L2.selectList_key
+#print axioms Mp.L2.projection_eq_select
+#print axioms Mp.L2.aggregate_projection_eq_select
